@@ -229,3 +229,115 @@ def dv_array(sp, name: str, r, w, E=None, PV=None):
     E = sp.E if E is None else E
     PV = sp.PV if PV is None else PV
     return fn(name, Ref, Name, EnvSort, PVSort, RealArr)(r, w, E, PV)
+
+
+# ------------------------------------------------------------------------------------------- structural degree of vector nodes
+from .seqtheory import named_maxfold, ELEMV      # noqa: E402
+
+EPOLY = fn("EPOLY", Ref, I, B)
+EDEG = fn("EDEG", Ref, I, I)
+
+
+def vec_deg(sp, v):
+    """(allpoly(i), maxdeg(i)) prefix folds over the elements of vector object v."""
+    ip = sp.ip
+    S, K, p = sp.S, sp.K, ip.path
+    register_vector(sp, v)
+    n = VLEN(v)
+    isvar = K.is_kind(v, "VectorVariable")
+    isexp = K.is_any(v, ["VectorExpression", "MatrixVectorProduct"])
+    from .seqtheory import seqs, _once
+
+    def pw(k):
+        if _once(ip, f"edeg:{v}:{k}"):
+            ee = ELEME(v, k)
+            p.assume(z3.Implies(isvar, z3.And(EPOLY(v, k), EDEG(v, k) == 1)))
+            p.assume(z3.Implies(isexp, z3.And(EPOLY(v, k) == S.ISPOLY(ee), z3.Implies(S.ISPOLY(ee), EDEG(v, k) == S.SDEG(ee)),
+                                              z3.Implies(S.ISPOLY(ee), S.SDEG(ee) >= 0))))
+    if _once(ip, f"edegreg:{v}"):
+        seqs(ip).pointwise.append(pw)
+    allp = named_forall(ip, "ALLPOLY", [v], n, lambda k: EPOLY(v, k))
+    mx = named_maxfold(ip, "PMAXDEG", [v], n, lambda k: z3.If(EPOLY(v, k), EDEG(v, k), z3.IntVal(0)))
+    return allp, mx
+
+
+def _deg_sum_like(sp, r, v):
+    allp, mx = vec_deg(sp, v)
+    n = VLEN(v)
+    sp.ip.path.assume(z3.And(sp.S.ISPOLY(r) == allp(n), z3.Implies(allp(n), sp.S.SDEG(r) == mx(n))))   # totalDegree_finset_sum_le
+
+
+@rule("deg", "VectorSum")
+def _(sp, r):
+    _deg_sum_like(sp, r, FV(sp, r))
+
+
+@rule("deg", "LinearCombination")
+def _(sp, r):
+    _deg_sum_like(sp, r, FV(sp, r))           # totalDegree_smul_le + totalDegree_finset_sum_le
+
+
+@rule("deg", "VectorExpressionSum")
+def _(sp, r):
+    _deg_sum_like(sp, r, FV(sp, r, "expression"))
+
+
+@rule("deg", "DotProduct")
+def _(sp, r):
+    l, rr = FV(sp, r, "left"), FV(sp, r, "right")
+    al, ml = vec_deg(sp, l)
+    ar, mr = vec_deg(sp, rr)
+    n = VLEN(l)
+    sp.ip.path.assume(VLEN(l) == VLEN(rr))         # checked by DotProduct.__init__
+    both = z3.And(al(n), ar(n))
+    # each term l_k * r_k has degree deg l_k + deg r_k <= max l + max r                     totalDegree_mul, _finset_sum_le
+    sp.ip.path.assume(z3.And(sp.S.ISPOLY(r) == both, z3.Implies(both, sp.S.SDEG(r) == ml(n) + mr(n))))
+
+
+@rule("deg", "QuadraticForm")
+def _(sp, r):
+    v = FV(sp, r)
+    allp, mx = vec_deg(sp, v)
+    n = VLEN(v)
+    sp.ip.path.assume(z3.And(sp.S.ISPOLY(r) == allp(n), z3.Implies(allp(n), sp.S.SDEG(r) == 2 * mx(n))))
+
+
+for _k in ("VectorPowerSum", "ElementwisePower"):
+    @rule("deg", _k)
+    def _(sp, r):
+        pw = FPOWER(r)
+        nat = z3.And(z3.IsInt(pw), pw >= 0)
+        sp.ip.path.assume(z3.And(sp.S.ISPOLY(r) == nat, z3.Implies(nat, sym.to_real(sp.S.SDEG(r)) == pw)))   # totalDegree_pow, X
+
+for _k in ("VectorUnarySum", "ElementwiseUnary", "L2Norm", "L1Norm", "MatrixSum", "FrobeniusNorm"):
+    @rule("deg", _k)
+    def _(sp, r):
+        # not claimed polynomial by the spec (MatrixSum of affine entries would be; the code answers None for it, which is sound)
+        pass
+
+
+# ------------------------------------------------------------------------------------------- NODIV0 of vector nodes
+from .specfns import NODIV0      # noqa: E402
+
+
+def vec_nd0(sp, v):
+    n = VLEN(v)
+    register_vector(sp, v)
+    allnd = named_forall(sp.ip, "ND0ALL", [v], n, lambda k: NODIV0(ELEME(v, k)))
+    return z3.Or(sp.K.is_kind(v, "VectorVariable"), allnd(n))
+
+
+for _k in ("VectorSum", "LinearCombination", "L2Norm", "L1Norm", "QuadraticForm"):
+    @rule("nd0", _k)
+    def _(sp, r):
+        sp.ip.path.assume(NODIV0(r) == vec_nd0(sp, FV(sp, r)))
+
+
+@rule("nd0", "VectorExpressionSum")
+def _(sp, r):
+    sp.ip.path.assume(NODIV0(r) == vec_nd0(sp, FV(sp, r, "expression")))
+
+
+@rule("nd0", "DotProduct")
+def _(sp, r):
+    sp.ip.path.assume(NODIV0(r) == z3.And(vec_nd0(sp, FV(sp, r, "left")), vec_nd0(sp, FV(sp, r, "right"))))
